@@ -456,6 +456,10 @@ def run(ctx):
                 'class); decode cases add the input kind (valid, valid+tail, 9 malformed kinds); distinct by those '
                 'keys; non-trivial = type AST size >= 3 or encoding longer than 127 octets or malformed input')
     ok = ctx.coq_props()
+    ctx.trusted_base += [
+        'Ber/X690.v: my formalisation of X.690 / X.680 tagging from memory, pinned by the byte-for-byte comparison with /repo',
+        'harness/codec_ber.py: independent tag calculator, TLV parser and DER structure checks',
+        'proposed_fixes/C03-*.diff, C04-*.diff: the model follows the repaired behaviour; on the unrepaired tree the check reports violations']
     known_findings(ctx)
     mods, cases = gen_cases(ctx, 45 if ctx.quick else 500, 3)
     ctx.log('%d modules, %d (type, value) cases' % (len(mods), len(cases)))
@@ -470,7 +474,9 @@ def run(ctx):
         common.proof_broken(ctx)
 
 
-OPEN = []
+OPEN = ['der_roundtrip for the DER decoder classes (Ber/DerAccept.v; der_ber_roundtrip - the BER decoder reads DER output back - is proved)',
+        'der_reencode',
+        'scope_enc is fuel-indexed: a recursive type whose recursive part has DEFAULT components is outside (counted in scope:*)']
 
 
 def known_findings(ctx):
